@@ -236,7 +236,7 @@ def gen_fit(rng):
     Xn = [gen_string(rng, pool if rng.random() < 0.6 else alpha) for _ in range(rng.randint(1, 6))]
     if rng.random() < 0.5:
         Xn += [[], [rng.choice(pool)], [rng.choice(alpha)] * 2]
-    return {"kind": "fit", "X": X, "Xnew": Xn, "vocab": rng.choice([1, 1, 2, 2, 3, 4, 5, 8, 10000]),
+    return {"kind": "fit", "prehistory": rng.random() < 0.4, "X": X, "Xnew": Xn, "vocab": rng.choice([1, 1, 2, 2, 3, 4, 5, 8, 10000]),
             "mintok": rng.choice([1, 1, 1, 2, 3, 5]), "mcc": rng.choice(MCCS)}
 
 
